@@ -518,4 +518,240 @@ theorem det_factor (A : Mat ℝ n n) : det (factor (Nat.le_refl n) A) = (toMatri
 
 end Bridge
 
+/-! ## solve: smallest pivot, forward and back substitution -/
+section Solve
+variable {n nx : Nat}
+
+theorem threshold_pos : (0 : ℝ) < (threshold : ℝ) := by
+  unfold threshold
+  simp only [ScalarReal.ofRat_eq, Generated.thresholdNum, Generated.thresholdDen]
+  norm_num
+
+/-- a value that passes the guard is positive -/
+theorem pos_of_not_below {d : ℝ} (hd : belowThreshold d = false) : 0 < d := by
+  unfold belowThreshold at hd
+  have := threshold_pos
+  split at hd
+  · have h' : ¬ d < threshold := by simpa using hd
+    linarith [not_lt.mp h']
+  · have h' : ¬ d ≤ threshold := by simpa using hd
+    linarith [not_le.mp h']
+
+/-- the scan returns the smallest magnitude on the diagonal -/
+theorem minDiag_spec (s : State ℝ n n) (h : n = n) (hn : 0 < n) :
+    (∀ i : Fin n, minDiag s h hn ≤ |s.lu.get i i|) ∧ ∃ i : Fin n, minDiag s h hn = |s.lu.get i i| := by
+  unfold minDiag
+  simp only [Fin.cast_eq_self, numAbs_eq, ScalarReal.ltb_iff]
+  apply foldl_inv (σ := ℝ)
+    (fun t d => (∀ i : Fin n, (i.val < t ∨ i.val = 0) → d ≤ |s.lu.get i i|) ∧ ∃ i : Fin n, d = |s.lu.get i i|) n _ _ ?_ ?_ |>.imp
+      (fun hh i => hh i (Or.inl i.isLt)) id
+  · refine ⟨?_, ⟨⟨0, hn⟩, rfl⟩⟩
+    intro i hi
+    rcases hi with hi | hi
+    · omega
+    · have : i = ⟨0, hn⟩ := Fin.ext hi
+      rw [this]
+  · intro i0 d ⟨h1, h2⟩
+    by_cases hpos : 0 < i0.val
+    · simp only [hpos, if_true]
+      by_cases hlt : |s.lu.get i0 i0| < d
+      · simp only [hlt, if_true]
+        refine ⟨?_, ⟨i0, rfl⟩⟩
+        intro i hi
+        rcases hi with hi | hi
+        · by_cases h3 : i.val < i0.val
+          · exact le_trans (le_of_lt hlt) (h1 i (Or.inl h3))
+          · have : i = i0 := Fin.ext (by omega)
+            rw [this]
+        · exact le_trans (le_of_lt hlt) (h1 i (Or.inr hi))
+      · simp only [hlt, if_false]
+        refine ⟨?_, h2⟩
+        intro i hi
+        rcases hi with hi | hi
+        · by_cases h3 : i.val < i0.val
+          · exact h1 i (Or.inl h3)
+          · have : i = i0 := Fin.ext (by omega)
+            rw [this]; exact not_lt.mp hlt
+        · exact h1 i (Or.inr hi)
+    · simp only [hpos, if_false]
+      refine ⟨?_, h2⟩
+      intro i hi
+      rcases hi with hi | hi
+      · by_cases h3 : i.val < i0.val
+        · exact h1 i (Or.inl h3)
+        · exact h1 i (Or.inr (by omega))
+      · exact h1 i (Or.inr hi)
+
+/-- invariant of the forward sweep: `X0(i,j) = Y(i,j) + Σ_{l < min k i} LU(i,l)·Y(l,j)` -/
+def FwdInv (s : State ℝ n n) (X0 : Mat ℝ n nx) (k : Nat) (Y : Mat ℝ n nx) : Prop :=
+  ∀ (i : Fin n) (j : Fin nx),
+    X0.get i j = Y.get i j + psum (min k i.val) (fun l => s.lu.get i l * Y.get l j)
+
+theorem fwdInv_step (s : State ℝ n n) (h : n = n) (X0 : Mat ℝ n nx) (k : Fin n) (Y : Mat ℝ n nx)
+    (hY : FwdInv s X0 k.val Y) : FwdInv s X0 (k.val + 1) (fwdStep s h Y k) := by
+  intro i j
+  rw [hY i j]
+  simp only [fwdStep, Mat.get_ofFn, Fin.cast_eq_self]
+  by_cases hik : k.val < i.val
+  · rw [min_eq_left (le_of_lt hik), min_eq_left (by omega : k.val + 1 ≤ i.val), psum_succ _ k.isLt]
+    simp only [Fin.eta, hik, if_true, lt_irrefl, if_false]
+    have : psum k.val (fun l => s.lu.get i l * (if k.val < l.val then Y.get l j - Y.get k j * s.lu.get l k else Y.get l j))
+        = psum k.val (fun l => s.lu.get i l * Y.get l j) := by
+      apply psum_congr
+      intro l hl
+      rw [if_neg (by omega)]
+    rw [this]
+    ring
+  · have e1 : min k.val i.val = i.val := min_eq_right (by omega)
+    have e2 : min (k.val + 1) i.val = i.val := min_eq_right (by omega)
+    rw [e1, e2]
+    simp only [hik, if_false]
+    congr 1
+    apply psum_congr
+    intro l hl
+    rw [if_neg (by omega)]
+
+theorem fwdInv_final (s : State ℝ n n) (h : n = n) (X0 : Mat ℝ n nx) :
+    FwdInv s X0 n (Fin.foldl n (fwdStep s h) X0) :=
+  foldl_inv (fun k Y => FwdInv s X0 k Y) n (fwdStep s h) X0
+    (by intro i j; simp [psum_zero]) (fun k t hk => fwdInv_step s h X0 k t hk)
+
+/-- invariant of the backward sweep, rows `≥ t` final:
+`Y(i,j) = [i < t]·Z(i,j) + Σ_{l ≥ t, l ≥ i} LU(i,l)·Z(l,j)` -/
+def BackInv (s : State ℝ n n) (Y : Mat ℝ n nx) (t : Nat) (Z : Mat ℝ n nx) : Prop :=
+  ∀ (i : Fin n) (j : Fin nx),
+    Y.get i j = (if i.val < t then Z.get i j else 0)
+      + ∑ l : Fin n, if t ≤ l.val ∧ i.val ≤ l.val then s.lu.get i l * Z.get l j else 0
+
+theorem backInv_step (s : State ℝ n n) (h : n = n) (Y : Mat ℝ n nx) (k : Fin n) (Z : Mat ℝ n nx)
+    (hpiv : s.lu.get k k ≠ 0) (hZ : BackInv s Y (k.val + 1) Z) : BackInv s Y k.val (backStep s h k Z) := by
+  intro i j
+  rw [hZ i j]
+  simp only [backStep, Mat.get_ofFn, Fin.cast_eq_self]
+  have hsplit : ∀ l : Fin n,
+      (if k.val ≤ l.val ∧ i.val ≤ l.val then
+          s.lu.get i l * (if l.val = k.val then Z.get k j / s.lu.get k k
+            else if l.val < k.val then Z.get l j - Z.get k j / s.lu.get k k * s.lu.get l k else Z.get l j)
+        else 0)
+      = (if k.val + 1 ≤ l.val ∧ i.val ≤ l.val then s.lu.get i l * Z.get l j else 0)
+        + (if l = k then (if i.val ≤ k.val then s.lu.get i k * (Z.get k j / s.lu.get k k) else 0) else 0) := by
+    intro l
+    by_cases h1 : l = k
+    · rw [h1]
+      have h0 : ¬ (k.val + 1 ≤ k.val ∧ i.val ≤ k.val) := by omega
+      simp only [le_refl, true_and, if_true, h0, if_false, zero_add]
+    · have h1' : ¬ l.val = k.val := fun e => h1 (Fin.ext e)
+      rw [if_neg h1, add_zero]
+      by_cases h2 : k.val ≤ l.val ∧ i.val ≤ l.val
+      · have h3 : k.val + 1 ≤ l.val ∧ i.val ≤ l.val := ⟨by omega, h2.2⟩
+        have h4 : ¬ l.val < k.val := by omega
+        simp only [h2, h3, h1', h4, and_self, if_true, if_false]
+      · have h3 : ¬ (k.val + 1 ≤ l.val ∧ i.val ≤ l.val) := fun hh => h2 ⟨by omega, hh.2⟩
+        simp only [h2, h3, if_false]
+  simp only [hsplit, Finset.sum_add_distrib, Finset.sum_ite_eq', Finset.mem_univ, if_true]
+  rcases lt_trichotomy i.val k.val with hik | hik | hik
+  · rw [if_pos (by omega), if_pos hik, if_neg (by omega), if_pos hik, if_pos (le_of_lt hik)]
+    ring
+  · have : i = k := Fin.ext hik
+    subst this
+    simp only [lt_irrefl, if_false, le_refl, if_true]
+    rw [if_pos (by omega)]
+    field_simp
+    ring
+  · rw [if_neg (by omega), if_neg (by omega), if_neg (by omega)]
+    ring
+
+theorem backInv_final (s : State ℝ n n) (h : n = n) (Y : Mat ℝ n nx) (hpiv : ∀ k : Fin n, s.lu.get k k ≠ 0) :
+    BackInv s Y 0 (Fin.foldr n (backStep s h) Y) :=
+  foldr_inv (fun t Z => BackInv s Y t Z) n (backStep s h) Y
+    (by
+      intro i j
+      have : ∀ l : Fin n, ¬ (n ≤ l.val ∧ i.val ≤ l.val) := fun l hh => absurd l.isLt (by omega)
+      rw [if_pos i.isLt, Finset.sum_eq_zero (fun l _ => if_neg (this l)), add_zero])
+    (fun k t hk => backInv_step s h Y k t (hpiv k) hk)
+
+/-- the two sweeps solve `L·(U·X) = X0` when no pivot is zero -/
+theorem substitute_spec (s : State ℝ n n) (h : n = n) (hpiv : ∀ k : Fin n, s.lu.get k k ≠ 0) (X0 : Mat ℝ n nx) :
+    matMul (getL s) (matMul (getU (Nat.le_refl n) s) (substitute s h X0)) = X0 := by
+  unfold substitute
+  have hf := fwdInv_final s h X0
+  generalize Fin.foldl n (fwdStep s h) X0 = Y at hf
+  have hb := backInv_final s h Y hpiv
+  generalize Fin.foldr n (backStep s h) Y = X at hb
+  have hUX : matMul (getU (Nat.le_refl n) s) X = Y := by
+    apply Mat.ext
+    intro l j
+    rw [hb l j]
+    simp only [matMul, Mat.get_ofFn, sumFin_eq, getU, Fin.castLE_refl, ScalarReal.zero_eq,
+      Nat.not_lt_zero, if_false, zero_add, Nat.zero_le, true_and]
+    apply Finset.sum_congr rfl
+    intro l' _
+    by_cases h1 : l.val ≤ l'.val
+    · simp [h1]
+    · simp [h1]
+  rw [hUX]
+  apply Mat.ext
+  intro i j
+  rw [hf i j]
+  simp only [matMul, Mat.get_ofFn, sumFin_eq, getL, ScalarReal.zero_eq, ScalarReal.one_eq, psum]
+  have hsplit : ∀ l : Fin n,
+      (if l.val < i.val then s.lu.get i l else if i.val = l.val then 1 else 0) * Y.get l j
+      = (if l = i then Y.get l j else 0) + (if l.val < min n i.val then s.lu.get i l * Y.get l j else 0) := by
+    intro l
+    by_cases h1 : l.val < i.val
+    · have h2 : l.val < min n i.val := lt_min l.isLt h1
+      have h3 : ¬ l = i := by intro e; rw [e] at h1; exact lt_irrefl _ h1
+      rw [if_pos h1, if_pos h2, if_neg h3, zero_add]
+    · have h2 : ¬ l.val < min n i.val := fun hh => h1 (lt_of_lt_of_le hh (min_le_right _ _))
+      rw [if_neg h1, if_neg h2, add_zero]
+      by_cases h3 : l = i
+      · rw [if_pos h3, if_pos (by rw [h3]), one_mul]
+      · have h4 : ¬ i.val = l.val := fun e => h3 (Fin.ext e.symm)
+        rw [if_neg h3, if_neg h4, zero_mul]
+  simp only [hsplit, Finset.sum_add_distrib, Finset.sum_ite_eq', Finset.mem_univ, if_true]
+
+/-- `solve`, when it returns, returns a solution of `A·X = B` together with the smallest pivot magnitude -/
+theorem solve_ok (A : Mat ℝ n n) (B : Mat ℝ n nx) (d : ℝ) (X : Mat ℝ n nx)
+    (hs : solve (factor (Nat.le_refl n) A) B = .ok (d, X)) :
+    matMul A X = B ∧ (∃ hn : 0 < n, d = minDiag (factor (Nat.le_refl n) A) rfl hn) := by
+  unfold solve at hs
+  rw [dif_pos (rfl : n = n)] at hs
+  by_cases hn : 0 < n
+  · rw [dif_pos ⟨rfl, hn⟩] at hs
+    simp only at hs
+    by_cases hbt : belowThreshold (minDiag (factor (Nat.le_refl n) A) rfl hn) = true
+    · rw [if_pos hbt] at hs; cases hs
+    · rw [if_neg hbt] at hs
+      by_cases hnx : 0 < nx
+      · rw [if_pos hnx] at hs
+        injection hs with hs
+        injection hs with hd hX
+        refine ⟨?_, ⟨hn, hd.symm⟩⟩
+        -- no zero pivot
+        have hpos := pos_of_not_below (by simpa using hbt)
+        obtain ⟨hmin, _⟩ := minDiag_spec (factor (Nat.le_refl n) A) rfl hn
+        have hpiv : ∀ k : Fin n, (factor (Nat.le_refl n) A).lu.get k k ≠ 0 := by
+          intro k hk
+          have := hmin k
+          rw [hk, abs_zero] at this
+          linarith
+        have hsub := substitute_spec (factor (Nat.le_refl n) A) rfl hpiv
+          (permuteCopy B rfl (factor (Nat.le_refl n) A).piv)
+        rw [hX] at hsub
+        obtain ⟨σ, h1, _, h3⟩ := factor_matrix (Nat.le_refl n) A
+        -- as Mathlib matrices: (A X)(σ i, j) = B(σ i, j)
+        have hm := congrArg toMatrix hsub
+        rw [toMatrix_matMul, toMatrix_matMul, ← Matrix.mul_assoc, ← h3] at hm
+        apply toMatrix_inj
+        rw [toMatrix_matMul]
+        ext i j
+        have := congrFun (congrFun hm (σ.symm i)) j
+        simp only [Matrix.mul_apply, Matrix.submatrix_apply, id_eq, Equiv.apply_symm_apply, toMatrix_apply,
+          permuteCopy, Mat.get_ofFn, Fin.cast_eq_self, h1] at this
+        simpa [Matrix.mul_apply] using this
+      · rw [if_neg hnx] at hs; cases hs
+  · rw [dif_neg (fun hh => hn hh.2)] at hs; cases hs
+
+end Solve
+
 end Bpp.LU
